@@ -962,10 +962,10 @@ class C08(Base):
                         cats = set()
                         both_ = set(a["pairs"]) & set(b["pairs"])
                         for m_ in missing:
-                            if m_ in both_:
-                                cats.add("pair-of-both-parts-dropped")     # no cut can justify losing a pair both parts report
-                            elif m_ in nonfirst:
+                            if m_ in nonfirst:
                                 cats.add("non-first-segment-dropped")
+                            elif m_ in both_:
+                                cats.add("pair-of-both-parts-dropped")     # no cut can justify losing a pair both parts report
                             elif lo <= m_[0] <= hi:
                                 cats.add("cut-inside-the-overlap")
                             else:
